@@ -156,6 +156,9 @@ type wrapSvc struct {
 	ends   []string         // ConnEnd deliveries (recorded when HandleConn is entered)
 	ended  []string         // ConnEnd deliveries that have RETURNED (the lock server has finished ending the session)
 	gates  map[string]*gate // by lock name
+	// window runs (window_on_test.go): observer of the server calls and a yield point inside them
+	onEvent func(what, sid, name string) // serve-enter / serve-exit (TryLock), end-enter / end-exit (ConnEnd)
+	yield   func(label string)           // H:serve (inside TryLock, before the lock server is called), H:connend
 }
 
 type gate struct {
@@ -184,12 +187,21 @@ func (w *wrapSvc) HandleConn(ctx context.Context, st stats.ConnStats) {
 		w.mu.Lock()
 		w.ends = append(w.ends, sid)
 		w.mu.Unlock()
+		if w.onEvent != nil {
+			w.onEvent("end-enter", sid, "")
+		}
+		if w.yield != nil {
+			w.yield("H:connend")
+		}
 	}
 	w.Service.HandleConn(ctx, st)
 	if isEnd {
 		w.mu.Lock()
 		w.ended = append(w.ended, sid)
 		w.mu.Unlock()
+		if w.onEvent != nil {
+			w.onEvent("end-exit", sid, "")
+		}
 	}
 }
 
@@ -201,7 +213,25 @@ func (w *wrapSvc) TryLock(ctx context.Context, req *pb.TryLockRequest) (*pb.Lock
 		close(g.entered)
 		<-g.release
 	}
-	return w.Service.TryLock(ctx, req)
+	if w.onEvent == nil && w.yield == nil {
+		return w.Service.TryLock(ctx, req)
+	}
+	sid, _ := w.srv.SessionId(ctx)
+	if w.onEvent != nil {
+		w.onEvent("serve-enter", sid, req.Name)
+	}
+	if w.yield != nil {
+		w.yield("H:serve")
+	}
+	r, err := w.Service.TryLock(ctx, req)
+	if w.onEvent != nil {
+		what := "serve-exit"
+		if r != nil && r.Locked {
+			what = "serve-exit-locked"
+		}
+		w.onEvent(what, sid, req.Name)
+	}
+	return r, err
 }
 
 func (w *wrapSvc) addGate(name string) *gate {
